@@ -94,6 +94,21 @@ inline std::string rat64(int k) {  // k/64 reduced
     return std::to_string(k) + "/" + std::to_string(d);
 }
 
+// Cells with at least one host, row-major: computed here, not with the library's find_suitable_cells
+// (expected values and inputs are never produced by code under test).
+inline std::vector<std::vector<int>> suitable_cells_of(const IRaster& total) {
+    std::vector<std::vector<int>> cells;
+    for (int a = 0; a < total.rows(); a++) for (int b = 0; b < total.cols(); b++) if (total(a, b) > 0) cells.push_back({a, b});
+    return cells;
+}
+inline std::vector<std::vector<int>> suitable_cells_of(const std::vector<const IRaster*>& totals) {
+    std::vector<std::vector<int>> cells;
+    if (totals.empty()) return cells;
+    for (int a = 0; a < totals[0]->rows(); a++) for (int b = 0; b < totals[0]->cols(); b++)
+        for (auto* t : totals) if ((*t)(a, b) > 0) { cells.push_back({a, b}); break; }
+    return cells;
+}
+
 // All rasters of one host.
 struct HostState {
     int rows, cols;
@@ -116,7 +131,7 @@ struct HostState {
             i(a, b) = sum_m; te(a, b) = sum_e;
             th(a, b) = s(a, b) + sum_e + sum_m + r(a, b);
         }
-        suitable = find_suitable_cells<int>(th);
+        suitable = suitable_cells_of(th);
     }
     std::string cells() const {
         std::ostringstream o;
